@@ -123,6 +123,18 @@ CLAIMS = {
         "note": "Trusted: eigh/eigvalsh ascending order and lower-triangle default; NumPy semantics of the interpreted subset.",
         "technique": "algebraic abstract interpretation with library atoms + normal-form identities",
     },
+    "C14": {
+        "level": "other",
+        "text": "Hamilton product identity (4 bilinear forms), Grimmer tables and exhaustive dispatch over the six lattice systems, uniform "
+                "group action rule (all operators are rotation quaternions applied through quat_product), the index formula on adjacent bin "
+                "edges with histogram range (0, theta_max)/density, exact interval coverage of the theoretical density's branches per lattice "
+                "system by constant folding, and order preservation of the batched variant. Numeric range, the ~0/~1 limits, quadrature error "
+                "and group closure are NOT decided.",
+        "note": "Trusted: Grimmer (1979) Table 1 as transcribed; pool.imap order preservation. Nine known findings (quat_product cross term, "
+                "4x4 reflection operators, rhombohedral/tetragonal/hexagonal interval tables) are pinned by the repository's own M-index tests "
+                "and therefore recorded in known_findings.json rather than repaired.",
+        "technique": "algebraic identity + enum exhaustiveness tables + AST who-applies rule + constant-folded interval coverage + order-preservation rule",
+    },
     "C15": {
         "level": "other",
         "text": "With data-dependent index vectors kept symbolic: both outputs of each snapshot are take(take(x, pi), k) for the same "
